@@ -108,7 +108,7 @@ CHECKS = {
              "through the guarded fault_point hook, obstacles as real non-empty directories, crashes as directory "
              "copies taken inside the hook callback with a new appender built over the copy; results (Ok/Err, never "
              "panic) and the parsed directory are compared after every operation.",
-        note=TLC_BASE + "; sizes in abstract units (10 / 16 / 400 bytes when replayed); compress step atomic; single appender thread in the replay"[:-1] + "; death inside gzip output / cross-mount copy fallback / fsync-level durability out of scope"',
+        note=TLC_BASE + "; sizes in abstract units (10 / 16 / 400 bytes when replayed); compress step atomic; single appender thread in the replay; death inside gzip output / cross-mount copy fallback / fsync-level durability out of scope",
         design="7/C08"),
     "C17": dict(
         category="model_checking",
@@ -118,7 +118,7 @@ CHECKS = {
              "pre-existing sizes absent/0..3, both modes and up to 2 restarts; each behaviour is replayed on the real "
              "trigger + appender: whether the first record (and only it) rotates, that the pre-existing content "
              "becomes the newest archive and the first record starts a fresh file are read off the parsed directory.",
-        note=TLC_BASE + "; sizes in abstract units (10 / 16 / 400 bytes when replayed); compress step atomic; single appender thread in the replay"[:-1] + "; simultaneous first appends are serialised by the appender mutex (threaded scenario: see DESIGN)"',
+        note=TLC_BASE + "; sizes in abstract units (10 / 16 / 400 bytes when replayed); compress step atomic; single appender thread in the replay; simultaneous first appends are serialised by the appender mutex (threaded scenario: see DESIGN)",
         design="7/C17"),
 }
 
